@@ -83,6 +83,10 @@ def bytesOfInts : List Int → R (List UInt8)
       | .error e => .error e
     else .error .valueError
 
+/-- `bytearray.append(x)`: ValueError unless x is in range(256) -/
+def bytesAppend (b : List UInt8) (x : Int) : R (List UInt8) :=
+  if 0 ≤ x ∧ x < 256 then .ok (b ++ [UInt8.ofNat x.toNat]) else .error .valueError
+
 /-- `try: body  except <exc>: handler` -/
 def tryExcept {α} (body : R α) (exc : Exc) (handler : R α) : R α :=
   match body with
